@@ -146,6 +146,10 @@ class Simulation:
             include_surrogate_fluxes=include_surrogate_fluxes,
             include_readouts=include_readouts,
         )
+        if len(dependent) > 0 and not set(names).issubset(dependent[0].columns):
+            # The model got new components (e.g. a readout) after the args were computed
+            self.raw_args.clear()
+            dependent = self._compute_args()
         return [i.loc[:, names] for i in dependent]
 
     def _adjust_data(
@@ -303,8 +307,9 @@ class Simulation:
         if not (
             include_derived_variables or include_readouts or include_surrogate_variables
         ):
+            # Copies: the caller must not be able to change the stored result
             return self._adjust_data(
-                self.raw_variables,
+                [i.copy() for i in self.raw_variables],
                 normalise=normalise,
                 concatenated=concatenated,
             )
@@ -479,11 +484,13 @@ class Simulation:
         """Get fluxes of variable with positive stoichiometry."""
         current = self.model.get_raw_parameters()
         self.model.update_parameters(self.raw_parameters[0])
-        names = [
-            k
-            for k, v in self.model.get_stoichiometries_of_variable(variable).items()
-            if v > 0
-        ]
+        try:
+            stoichiometries = self.model.get_stoichiometries_of_variable(variable)
+        except KeyError:
+            # Unknown variable: leave the model as it was
+            self.model.update_parameters(current)
+            raise
+        names = [k for k, v in stoichiometries.items() if v > 0]
 
         fluxes: list[pd.DataFrame] = [
             i.loc[:, names]
@@ -544,11 +551,13 @@ class Simulation:
         """Get fluxes of variable with negative stoichiometry."""
         current = self.model.get_raw_parameters()
         self.model.update_parameters(self.raw_parameters[0])
-        names = [
-            k
-            for k, v in self.model.get_stoichiometries_of_variable(variable).items()
-            if v < 0
-        ]
+        try:
+            stoichiometries = self.model.get_stoichiometries_of_variable(variable)
+        except KeyError:
+            # Unknown variable: leave the model as it was
+            self.model.update_parameters(current)
+            raise
+        names = [k for k, v in stoichiometries.items() if v < 0]
 
         fluxes: list[pd.DataFrame] = [
             i.loc[:, names]
